@@ -40,7 +40,7 @@ ENCODINGS = [
     ("cp1252", lambda t: t.encode("cp1252")),
 ]
 NON_ASCII_1252 = ["é", "ü", "ß", "€", "Ñ", "æ", "©", "±"]
-NON_ASCII_WIDE = ["日本", "λ", "Ж", "🙂", "ё"]
+NON_ASCII_WIDE = ["日本", "λ", "Ж", "🙂", "ё", "\ufffd", "\u00ad", "\ufeff"]
 TOKEN_LINE = re.compile(r"^Type: (\w+), Value: '(.*)', At: Ln (\d+),Col (\d+)$")
 
 
@@ -131,11 +131,14 @@ def shard(shard_i, nshards, payload):
                         continue      # would be read as UTF-8: not a cp1252 test
                     except UnicodeDecodeError:
                         pass
-                path = os.path.join(tmp, "d%d_%s.st" % (i, name))
+                ddir = os.path.join(tmp, "dir%d_%s" % (i, name))
+                os.makedirs(ddir, exist_ok=True)
+                path = os.path.join(ddir, "d%d.st" % i)
                 open(path, "wb").write(data)
                 obs = {}
-                for cmd in ("check", "tokenize"):
-                    r = core.run_cli([cmd, path], tmp)
+                for cmd in ("check", "tokenize", "check-dir"):
+                    # the file given by name, and the directory that holds (only) it
+                    r = core.run_cli(["check", ddir], tmp) if cmd == "check-dir" else core.run_cli([cmd, path], tmp)
                     res.evaluations += 1
                     res.count("%s:%s" % (cmd, name))
                     case = {"text": text, "encoding": name, "cmd": cmd, "kind": kind}
@@ -147,7 +150,13 @@ def shard(shard_i, nshards, payload):
                         res.violation("crash", "crash:%s" % (pm[0] + ":" + pm[1][:40] if pm else r["rc"]), r["err"][-300:], case)
                         agreed = False
                         continue
-                    if cmd == "check":
+                    if cmd == "check-dir":
+                        obs[cmd] = summary(r)
+                        if "check" in obs and obs["check"] != obs[cmd]:
+                            res.violation("encoding-dependent", "dir-vs-file:%s" % name,
+                                          {"file": obs["check"], "directory": obs[cmd]}, case)
+                            agreed = False
+                    elif cmd == "check":
                         obs[cmd] = summary(r)
                         bad = positions_inside(r, text.replace("\r\n", "\n"))
                         if bad:
@@ -156,7 +165,7 @@ def shard(shard_i, nshards, payload):
                     else:
                         toks = [TOKEN_LINE.match(l) for l in r["out"].splitlines()]
                         obs[cmd] = (r["rc"], [(m.group(1), m.group(3), m.group(4)) for m in toks if m])
-                os.unlink(path)
+                shutil.rmtree(ddir, ignore_errors=True)
                 if ref is None:
                     ref = (name, obs)
                 elif obs != ref[1]:
